@@ -282,8 +282,9 @@ def expand_steps(text, tier, subst):
             ns = dict((part.split(':')[0], [int(x) for x in part.split(':')[1].split(',')]) for part in o['ns'].split(';'))
         for n in ns.get(tier, ns.get('quick')):
             bound = o.get('bound', 'table size max_inflight = {n}; topic/payload empty').replace('{n}', str(n))
-            gen.append('// @harness props=%s tier=%s kind=%s bound="%s" fn=%s\n#[kani::proof]\n#[kani::unwind(%s)]\n%sfn %s_n%d() {\n    %s(%d);\n}\n' % (
-                o['props'], tier, o.get('kind', 'bounded'), bound, o['fn'], o.get('unwind', n + 4),
+            cov = (' covered_by=%s' % o['covered_by']) if 'covered_by' in o else ''
+            gen.append('// @harness props=%s tier=%s kind=%s bound="%s" fn=%s%s\n#[kani::proof]\n#[kani::unwind(%s)]\n%sfn %s_n%d() {\n    %s(%d);\n}\n' % (
+                o['props'], tier, o.get('kind', 'bounded'), bound, o['fn'], cov, o.get('unwind', n + 4),
                 ''.join('#[kani::stub(%s)]\n' % x for x in o.get('stubs', '').split(';') if x), o['name'], n, o['call'], n))
     return text + '\n// ---- generated from @steps directives ----\n' + '\n'.join(gen)
 
@@ -324,7 +325,7 @@ def prepare_kani_ws(scratch):
     return ws
 
 
-def kani_crate(crate, prop, tier, scratch, only=None):
+def kani_crate(crate, prop, tier, scratch, only=None, clean_units=()):
     """instrument the scratch copy of `crate`, run the harnesses that serve `prop`, return results"""
     cfg = registry.KANI[crate]
     ws = prepare_kani_ws(scratch)
@@ -333,6 +334,7 @@ def kani_crate(crate, prop, tier, scratch, only=None):
     vk = os.path.join(ws, crate, 'verif_kani')
     os.makedirs(vk, exist_ok=True)
     selected = []
+    skipped = []
     metas = {}
     for mod in cfg['modules']:
         srcfile, hfile, modname = mod[0], mod[1], mod[2]
@@ -368,6 +370,11 @@ def kani_crate(crate, prop, tier, scratch, only=None):
             full = '%s::%s::%s' % (modpath, modname, h['name']) if modpath else '%s::%s' % (modname, h['name'])
             if only and h['name'] not in only:
                 continue
+            # quick tier: a harness whose obligations are ALL discharged by a Verus unit (unbounded) is run only when
+            # that unit did not come out clean (failure -> the harness supplies the counterexample; undecided -> it decides)
+            if tier != 'thorough' and h.get('covered_by') and h['covered_by'] in clean_units:
+                skipped.append(dict(name=h['name'], fn=h.get('fn', ''), covered_by=h['covered_by']))
+                continue
             h = dict(h)
             h['full'] = full
             h['file'] = gen_name
@@ -376,7 +383,12 @@ def kani_crate(crate, prop, tier, scratch, only=None):
             metas[full] = h
     for extra in cfg.get('extra_files', []):
         shutil.copy(os.path.join(VERIF, 'kani', crate, extra), os.path.join(vk, extra))
+    res['skipped'] = skipped
     if not selected:
+        if skipped:
+            res['notes'].append('all %d harnesses for %s are covered by clean Verus units in the quick tier' % (len(skipped), prop))
+            res['wall_s'] = 0.0
+            return res
         res['status'] = 'undecided'
         res['hard'].append(dict(kind='vacuous', msg='no harness selected for %s in %s' % (prop, crate)))
         return res
@@ -711,10 +723,17 @@ def main():
         r = verus_unit(unit, scratch, prop)
         log('[%s]   %s: %d fns verified, %d failing obligations, %d hard errors, %.1fs' % (prop, unit, r.get('verified_fns', 0), len(r['failures']), len(r['hard']), r.get('wall_s', 0)))
         results.append(r)
+    known_all = load_known()
+    clean_units = set()
+    for r in results:
+        unknown = [f for f in r['failures'] if not any(x['ob'] == f['name'] for x in known_all)]
+        if r.get('engine') == 'verus' and not r['hard'] and not unknown:
+            clean_units.add(r['unit'])
     for crate in cfg.get('kani', []):
         log('[%s] kani crate %s (%s tier) ...' % (prop, crate, tier))
-        r = kani_crate(crate, prop, tier, scratch, only=args.only.split(',') if args.only else None)
-        log('[%s]   %s: %d harnesses, %d failing obligations, %d hard errors, %.1fs' % (prop, crate, len(r['harnesses']), len(r['failures']), len(r['hard']), r.get('wall_s', 0)))
+        r = kani_crate(crate, prop, tier, scratch, only=args.only.split(',') if args.only else None, clean_units=clean_units)
+        log('[%s]   %s: %d harnesses, %d failing obligations, %d hard errors, %.1fs' % (prop, crate, len(r['harnesses']), len(r['failures']), len(r['hard']), r.get('wall_s', 0)) +
+            (' (%d harnesses left to the clean Verus units %s)' % (len(r.get('skipped', [])), ','.join(sorted({x['covered_by'] for x in r.get('skipped', [])}))) if r.get('skipped') else ''))
         results.append(r)
 
     for crate in cfg.get('native', []):
@@ -856,12 +875,20 @@ def write_evidence(prop, tier, seed, cfg, results, violations, known_hits, undec
     solver_time = {}
     dropped = []
     per_unit = []
+    other_tagged = 0
+    left_to_verus = []
     for r in results:
         if r.get('cmd'):
             cmds.append(r['cmd'])
         if r['engine'] == 'verus':
             w = r.get('weave') or {}
-            labelled = w.get('obligations', [])
+            all_labelled = w.get('obligations', [])
+            # a unit may serve several properties: count the clauses tagged with this one (the per-function safety
+            # obligations — no panic, no overflow, termination — are shared and counted once per function)
+            labelled = [o for o in all_labelled if prop in o['props']]
+            other_tagged += len(all_labelled) - len(labelled)
+            known_names_v = {f['name'] for (f, k) in known_hits}
+            labelled = [o for o in labelled if o['name'] not in known_names_v]
             failing = {f['ob']['name'] for f in r['failures'] if f.get('ob')}
             exec_fns = [f for f in w.get('functions', []) if not f.get('external_body') and not f.get('declaration_only')]
             n_ob = len(labelled) + len(exec_fns)
@@ -914,8 +941,7 @@ def write_evidence(prop, tier, seed, cfg, results, violations, known_hits, undec
                 solver_time[h['name']] = h['time_s']
                 samples.append(dict(obligation='%s (%d CBMC checks incl. %d reachability covers)' % (h['name'], h['checks'], h['covers_satisfied']), engine='kani', bound=h['bound'], fn=h['fn']))
             per_unit.append(dict(unit=r['unit'], engine='kani', harnesses=len(r.get('harnesses', [])), wall_s=r.get('wall_s')))
-            for sel in r.get('selected', []):
-                pass
+            left_to_verus += r.get('skipped', [])
     # hash functions under Kani contract too (text as in /repo now)
     native_cases = sum(t.get('cases', 0) or 0 for r in results if r['engine'] == 'native' for t in r.get('tests', []))
     level = cfg.get('level', 'proof')
@@ -935,6 +961,8 @@ def write_evidence(prop, tier, seed, cfg, results, violations, known_hits, undec
             scope=cfg.get('scope', ''),
             failing=[dict(obligation=f['name'], detail=(f.get('desc') or f.get('msg') or '')[:300]) for (_, f) in violations],
             known_findings=[dict(obligation=f['name'], harness=f.get('harness'), known_finding=k['text']) for (f, k) in known_hits],
+            clauses_of_other_properties_in_shared_units=other_tagged,
+            kani_harnesses_not_run_because_a_clean_verus_unit_covers_them=left_to_verus,
             failing_for_other_properties=[dict(obligation=f['name'], harness=f.get('harness'), props=f.get('props')) for f in other_prop_failures],
             undecided=[dict(obligation=f['name'], detail=(f.get('desc') or f.get('msg') or '')[:300]) for (_, f) in undecided][:20],
             exhaustive=(level == 'exploration'),
